@@ -25,6 +25,7 @@ def main():
     ap.add_argument("--budget", type=float, default=20)
     ap.add_argument("--dir", default=os.path.join(VERIF, "mutants"))
     a = ap.parse_args()
+    a.dir = os.path.abspath(a.dir)
     sh(f"git -C /repo worktree remove --force {WT}")
     r = sh(f"git -C /repo worktree add --detach {WT} HEAD")
     if r.returncode:
@@ -49,6 +50,7 @@ def main():
             r = sh(f"git apply {f}", cwd=WT)
             if r.returncode:
                 rows.append((name, "APPLY-FAILED", r.stderr[:200]))
+                print(rows[-1])
                 continue
             env = dict(os.environ, HDC_VERIF_REPO=WT)
             verdicts = []
